@@ -500,8 +500,10 @@ pub(crate) fn c15_finalize(k: usize, threads_form: bool) {
     e::cover("c15-path-complete");
     return;
   }
+  // source: a parked create handle, or a Subject on which this pipeline is one subscriber among several
+  let sk = e::choose(2) * 2;
   if !threads_form {
-    let mut o = cat::hot();
+    let mut o = cat::hot_kind(0, sk);
     if let Some((op, p)) = &pp {
       o = cat::build(*op, o, p);
     }
@@ -514,10 +516,12 @@ pub(crate) fn c15_finalize(k: usize, threads_form: bool) {
       None => BoxSubscription::new(o.actual_subscribe(probe)),
     };
     unsub = Some(Box::new(move || if by_guard { drop(u.unsubscribe_when_dropped()) } else { u.unsubscribe() }));
-    let mut h = cat::handle(0);
-    feeder = Box::new(move |ev| feed(&mut h, ev));
+    cat::add_late_sibling(0);
+    feeder = Box::new(move |ev| {
+      cat::feed_hot(0, ev);
+    });
   } else {
-    let mut o = cat::hot_t();
+    let mut o = cat::hot_kind_t(0, sk);
     if let Some((op, p)) = &pp {
       o = cat::build_t(*op, o, p);
     }
@@ -530,12 +534,15 @@ pub(crate) fn c15_finalize(k: usize, threads_form: bool) {
       None => BoxSubscriptionThreads::new(o.actual_subscribe(probe)),
     };
     unsub = Some(Box::new(move || if by_guard { drop(u.unsubscribe_when_dropped()) } else { u.unsubscribe() }));
-    let mut h = cat::handle_t(0);
-    feeder = Box::new(move |ev| feed_t(&mut h, ev));
+    cat::add_late_sibling(0);
+    feeder = Box::new(move |ev| {
+      cat::feed_hot_t(0, ev);
+    });
   }
-  e::note(format!("finalize{} pre={:?} post={:?}", if threads_form { "_threads" } else { "" }, pre, post));
+  e::note(format!("finalize{} pre={:?} post={:?} over {}", if threads_form { "_threads" } else { "" }, pre, post, if sk == 0 { "a create handle" } else { "a Subject with sibling subscribers" }));
   let mut source_terminated = false;
   let mut triggered = false;
+  let mut downstream_finished_first = false;
   for _ in 0..k {
     let c = e::choose(4);
     match c {
@@ -547,6 +554,9 @@ pub(crate) fn c15_finalize(k: usize, threads_form: bool) {
       1 | 2 => {
         let ev = if c == 1 { Ev::Complete } else { Ev::Err(Val::var()) };
         e::note(world::show_ev(&ev));
+        if !triggered && probe.terminated() {
+          downstream_finished_first = true;
+        }
         feeder(&ev);
         if !source_terminated {
           source_terminated = true;
@@ -565,7 +575,9 @@ pub(crate) fn c15_finalize(k: usize, threads_form: bool) {
     }
     let n = world::counter(1);
     if triggered && n != 1 {
-      e::fail("finalize/not-run-after-trigger", || format!("after the first complete/error/unsubscribe the finalizer count is {}", n));
+      // the composition is part of the key: a Subject source skips subscribers that report finished
+      let key = if sk == 2 && downstream_finished_first && n == 0 { "finalize/not-run-after-trigger/subject-source-after-downstream-finished" } else { "finalize/not-run-after-trigger" };
+      e::fail(key, || format!("after the first complete/error/unsubscribe the finalizer count is {}", n));
     }
     if !triggered && n != 0 && !probe.terminated() {
       e::fail("finalize/ran-early", || "finalizer ran before any complete/error/unsubscribe".to_string());
